@@ -128,3 +128,12 @@ Theorem cmap0_roundtrip : forall language m,
   end.
 Proof. exact ProofsCmap0.cmap0_roundtrip. Qed.
 Print Assumptions cmap0_roundtrip.
+
+Theorem cmap0_recompile_stable : forall data language m,
+  ModelCmap0.cmap0_decompile data = Ok (language, m) ->
+  match ModelCmap0.cmap0_compile language m with
+  | Ok bytes => ModelCmap0.cmap0_decompile bytes = Ok (language, m)
+  | Err _ => True
+  end.
+Proof. exact ProofsCmap0.cmap0_recompile_stable. Qed.
+Print Assumptions cmap0_recompile_stable.
